@@ -56,7 +56,7 @@ PROPS = {
     ),
     "C16": dict(
         lean_modules=["Liftbridge.Props.C16"],
-        gen_sources=LOG_SOURCES,
+        gen_sources=LOG_SOURCES + ["server/partition.go:partition.messageProcessingLoop", "server/api.go:apiServer.ensurePublishPreconditions"],
         go_pkg="./server/commitlog", test="TestVerifC16",
         level="proof",
         assumptions=LOG_ASSUME + ["concurrent publishers are serialised by the partition leader's single message-processing loop with batch size 1 (extracted fact); their interleavings are the arrival orders"],
